@@ -308,7 +308,10 @@ def generate(pin=False):
     if pin:
         os.makedirs(os.path.dirname(PINNED), exist_ok=True)
         json.dump(fresh, open(PINNED, 'w'), indent=1, sort_keys=True)
-    emit('fallbacks.json', json.dumps(fallbacks, indent=1))
+    import gen_tables
+    gen_tables.NOTES.extend(fallbacks)
+    if __name__ == '__main__':
+        emit('fallbacks.json', json.dumps(fallbacks, indent=1))
 
 if __name__ == '__main__':
     generate(pin='--pin' in sys.argv)
